@@ -11,7 +11,7 @@ Rec ==
     [] kind = "fori" -> [k |-> kind, tb |-> [i \in 1..3 |-> [j \in 1..Cardinality(S) |-> prog.b[<<i - 1, j - 1>>]]],
                          lo |-> prog.bd[1], hi |-> prog.bd[2], s0 |-> prog.s0, s |-> js, n |-> jn]
     [] kind = "scan" -> [k |-> kind, tf |-> [i \in 1..Cardinality(S) |-> <<prog.f[<<i - 1, 0>>], prog.f[<<i - 1, 1>>]>>],
-                         c0 |-> prog.c0, xs |-> prog.xs, s |-> js, ys |-> jys, n |-> jn]
+                         c0 |-> prog.c0, xs |-> prog.xs, s |-> js, ys |-> JaxYs, n |-> jn, rev |-> prog.rev, hx |-> prog.hx, reject |-> ScanRejected]
     [] kind = "cond" -> [k |-> kind, idx |-> prog.idx, t0 |-> Tab(prog.br[0]), t1 |-> Tab(prog.br[1]), s0 |-> prog.s, s |-> js]
 EmitDone == (JaxDone /\ OnnxDone) => PrintT(ToJson(Rec))
 ====
